@@ -12,27 +12,34 @@ type evidence struct {
 	o *options
 	p *prepared
 
-	Runs, ColdRuns, Steps, SoloSteps, Switches, Preempts, Contended, Nontriv uint64
-	Ops, OpsRun, OpsSkipped, CBCalls, GCs, Stalls, StallOps, LockWaits       uint64
-	LateSpawns, Publishes, Capped, Overruns, DecOverflow                     uint64
-	RunsByBuild                                                              map[string]uint64
-	RunsByPhase                                                              map[string]uint64
-	OpKinds, Policies, Shapes, Fired, O2Cadence, Probes                      map[string]uint64
-	SiteHits                                                                 []uint64
-	PairCount                                                                int
-	Samples                                                                  []json.RawMessage
-	WorkerWallMS                                                             int64
-	DistinctSigs                                                             int
-	Determinism                                                              *detResult
-	Violations                                                               int
-	KnownFindings                                                            int
-	WallS                                                                    float64
+	Runs, ColdRuns, Steps, SoloSteps, Switches, Preempts, Contended, Nontriv     uint64
+	Ops, OpsRun, OpsSkipped, CBCalls, GCs, Stalls, StallOps, LockWaits           uint64
+	LateSpawns, Publishes, Capped, Overruns, DecOverflow, ClockJumps, ClockReads uint64
+	RunsByBuild                                                                  map[string]uint64
+	RunsByPhase                                                                  map[string]uint64
+	OpKinds, Policies, Shapes, Fired, O2Cadence, Probes                          map[string]uint64
+	SiteHits                                                                     []uint64
+	PairCount                                                                    int
+	Samples                                                                      []json.RawMessage
+	WorkerWallMS                                                                 int64
+	DistinctSigs                                                                 int
+	Determinism                                                                  *detResult
+	Violations                                                                   int
+	KnownFindings                                                                int
+	WallS                                                                        float64
 }
 
 func newEvidence(o *options, p *prepared) *evidence {
 	return &evidence{o: o, p: p, RunsByBuild: map[string]uint64{}, RunsByPhase: map[string]uint64{},
 		OpKinds: map[string]uint64{}, Policies: map[string]uint64{}, Shapes: map[string]uint64{}, Fired: map[string]uint64{},
 		O2Cadence: map[string]uint64{}, Probes: map[string]uint64{}}
+}
+
+func clockNote(e *evidence) string {
+	if e.p.Instr.UsesTime {
+		return fmt.Sprintf("the library imports package time on this tree: the simulator owns the clock (ztime shim; %d clock reads, %d injected jumps); timers and sleeps are not virtualised", e.ClockReads, e.ClockJumps)
+	}
+	return "the library reads no clock (package time is not imported); if it ever does, the import is rewritten to a simulated clock with injected jumps"
 }
 
 func addMap(dst, src map[string]uint64) {
@@ -55,6 +62,8 @@ func (e *evidence) add(s *summary, phase string) {
 	e.OpsSkipped += s.OpsSkipped
 	e.CBCalls += s.CBCalls
 	e.GCs += s.GCs
+	e.ClockJumps += s.ClockJumps
+	e.ClockReads += s.ClockReads
 	e.Stalls += s.Stalls
 	e.StallOps += s.StallOps
 	e.LockWaits += s.LockWaits
@@ -162,6 +171,7 @@ func (e *evidence) write(path string) error {
 			"stall":                      e.Stalls,
 			"ops_completed_during_stall": e.StallOps,
 			"gc":                         e.GCs,
+			"clock_jump":                 e.ClockJumps,
 			"callback_error":             e.Fired["error"],
 			"callback_panic":             e.Fired["panic"],
 			"callback_exit":              e.Fired["exit"],
@@ -173,7 +183,7 @@ func (e *evidence) write(path string) error {
 		"faults_not_injected": map[string]string{
 			"message loss/duplication/reordering/delay, partitions": "the library has no transport",
 			"disk errors, short/torn/lost writes, full disk":        "the library has no storage or stream API",
-			"clock skew and jumps, timers":                          "the library reads no clock (package time is not imported)",
+			"clock skew and jumps, timers":                          clockNote(e),
 			"crash/restart with durable state":                      "the library has no durable state",
 			"failing allocations":                                   "Go aborts the process; the library cannot observe it",
 			"failing system calls / EINTR":                          "the library makes none",
